@@ -321,7 +321,12 @@ func xpkgFiles() (a1, a2, b, c *fileB) {
 
 func xpkgSets() []*Set {
 	a1, a2, b, c := xpkgFiles()
-	all := simpleSet("xpkg-all", a1, a2, xpkgEnumOnly(), b, c)
+	eo := xpkgEnumOnly()
+	// source info (comments on every element, incl. the syntax and package statements) as protoc supplies it
+	for _, f := range []*fileB{a1, a2, eo, b, c} {
+		addSourceInfo(f.f)
+	}
+	all := simpleSet("xpkg-all", a1, a2, eo, b, c)
 	// M mapping + source_relative: a file without go_package
 	mf := &fileB{f: &descriptorpb.FileDescriptorProto{
 		Name: proto.String("zzgen/xm/m.proto"), Package: proto.String("vf.xpkg.m"), Syntax: proto.String("proto3"),
@@ -539,6 +544,16 @@ func nameSets() []*Set {
 		m.add(repeated(field("history", 2, kindSpec{t: tEnum, name: "." + pkg + ".Phase"})))
 		m.addMap("by_name", 3, tString, kindSpec{t: tEnum, name: "." + pkg + ".Phase"})
 		f.msg(m)
+	})
+	// a comment on the package statement whose text starts, directly after the slashes, like a Go build constraint
+	mk("names-comment-directive", "ncdir", func(f *fileB, pkg string) {
+		m := newMsg("."+pkg, "Plain")
+		m.add(field("v", 1, kindSpec{t: tString}))
+		f.msg(m)
+		f.f.SourceCodeInfo = &descriptorpb.SourceCodeInfo{Location: []*descriptorpb.SourceCodeInfo_Location{
+			{Path: []int32{2}, Span: []int32{2, 0, 2, 20}, LeadingComments: proto.String("go:build ignore\n")},
+			{Path: []int32{4, 0}, Span: []int32{4, 0, 6, 1}, LeadingComments: proto.String("go:generate echo hello\n")},
+		}}
 	})
 	// message / enum names that need Go-name mangling
 	mk("names-mangle", "nmangle", func(f *fileB, pkg string) {
